@@ -217,6 +217,7 @@ func forgeries(rng *hlib.Rng, k []byte, all bool) []forged {
 }
 
 func forgeOne(o *hlib.Out, w *kwp.KWP, kek []byte, f forged) {
+	o.Case() // one case per forgery: a replay is exactly the offending unwrap line
 	ans := hlib.Ask(fmt.Sprintf("X kwpraw %s %s", hlib.Tok(kek), hlib.Tok(f.s)))
 	if hlib.Pre() {
 		return
@@ -257,7 +258,6 @@ func forgeOne(o *hlib.Out, w *kwp.KWP, kek []byte, f forged) {
 func kwpForge(o *hlib.Out, rng *hlib.Rng) {
 	thorough := hlib.Thorough()
 	group := func(l, kekLen int, all bool, sample int) {
-		o.Case()
 		kek := rng.Bytes(kekLen)
 		w, err := kwp.NewKWP(kek)
 		if err != nil {
